@@ -335,10 +335,10 @@ theorem matchP_binds (ρ : Env) : ∀ (p : Pat) (v : V) (b : Bindings) (y : Stri
     | none => simp [hp] at h
     | some b' =>
       simp [hp] at h; subst h
-      rcases List.mem_append.mp hm with hm | hm
-      · exact .as_sub (matchP_binds ρ p v b' y w hp hm)
-      · simp at hm; obtain ⟨rfl, rfl⟩ := hm
+      rcases List.mem_cons.mp hm with hm | hm
+      · injection hm with h1 h2; subst h1; subst h2
         exact .as_self
+      · exact .as_sub (matchP_binds ρ p v b' y w hp hm)
   | .or p q, v, b, y, w, h, hm => by
     simp only [matchP] at h
     cases hp : matchP ρ p v with
@@ -659,5 +659,311 @@ theorem capturedAll_sound (cfg : Cfg) (hcfg : cfg.literalOnly = true) (ρ : Env)
     · exact ⟨p, by simp, captured_sound cfg hcfg ρ p μ v h⟩
     · obtain ⟨q, hq, hm⟩ := capturedAll_sound cfg hcfg ρ μ v ps h
       exact ⟨q, by simp [hq], hm⟩
+
+
+/-! ## the compiled matcher decides the reference relation -/
+
+theorem cseq_verdict {r : Rest} {npre npost : Nat} {xs : List V} {cpre cpost : Bool × Writes}
+    {mpre mpost : Option Bindings} (h₁ : cpre.1 = mpre.isSome) (h₂ : cpost.1 = mpost.isSome) :
+    (cseqCombine r npre npost xs cpre cpost).1 = (seqCombine r npre npost xs mpre mpost).isSome := by
+  unfold cseqCombine seqCombine
+  split
+  · cases mpre <;> cases mpost <;> simp_all
+  · rfl
+
+mutual
+theorem cmatch_verdict (ρ : Env) : ∀ (p : Pat) (v : V), (cmatch ρ p v).1 = (matchP ρ p v).isSome
+  | .lit s, v => by
+    cases v <;> simp [cmatch, matchP]
+    split <;> simp_all
+  | .interp pre x, v => by
+    simp only [cmatch, matchP]
+    cases hx : ρ.get x with
+    | none => simp
+    | some s =>
+      cases s <;> cases v <;> (try simp)
+      all_goals (rename_i s t; cases t <;> (try simp))
+      all_goals (split <;> simp_all)
+  | .range op lo hi, v => by
+    simp only [cmatch, matchP]
+    split <;> simp_all
+  | .list pre r post, v => by
+    cases v <;> simp only [cmatch, matchP] <;> try rfl
+    exact cseq_verdict (celems_verdict ρ pre _) (celems_verdict ρ post _)
+  | .tup pre r post, v => by
+    cases v <;> simp only [cmatch, matchP] <;> try rfl
+    · exact cseq_verdict (celems_verdict ρ pre _) (celems_verdict ρ post _)
+    · exact cseq_verdict (celems_verdict ρ pre _) (celems_verdict ρ post _)
+  | .map ks ps, v => by
+    cases v <;> simp only [cmatch, matchP] <;> try rfl
+    exact ckeys_verdict ρ ks ps _
+  | .recd ks ps, v => by
+    cases v <;> simp only [cmatch, matchP] <;> try rfl
+    · exact ckeys_verdict ρ ks ps _
+    · exact ckeys_verdict ρ ks ps _
+  | .obj c none, v => by
+    simp only [cmatch, matchP]
+    split <;> simp_all
+  | .obj c (some p), v => by
+    simp only [cmatch, matchP]
+    split
+    · split
+      · exact cmatch_verdict ρ p _
+      · rfl
+    · rfl
+  | .bind x, v => by simp [cmatch, matchP]
+  | .as p x, v => by
+    have := cmatch_verdict ρ p v
+    simp only [cmatch, matchP]
+    cases hp : matchP ρ p v <;> simp_all
+  | .or p q, v => by
+    have h₁ := cmatch_verdict ρ p v
+    have h₂ := cmatch_verdict ρ q v
+    simp only [cmatch, matchP]
+    cases hp : matchP ρ p v <;> cases hq : matchP ρ q v <;> simp_all
+  | .and p q, v => by
+    have h₁ := cmatch_verdict ρ p v
+    have h₂ := cmatch_verdict ρ q v
+    simp only [cmatch, matchP]
+    cases hp : matchP ρ p v <;> cases hq : matchP ρ q v <;> simp_all
+  | .opt p, v => by
+    have h₁ := cmatch_verdict ρ p v
+    simp only [cmatch, matchP]
+    cases hp : matchP ρ p v
+    · simp_all
+      split <;> simp
+    · simp_all
+  | .must, v => by
+    simp only [cmatch, matchP]
+    split <;> simp
+  | .rel op o, v => by
+    simp only [cmatch, matchP]
+    split
+    · split <;> simp_all
+    · rfl
+
+theorem celems_verdict (ρ : Env) : ∀ (ps : List Pat) (xs : List V),
+    (celems ρ ps xs).1 = (matchElems ρ ps xs).isSome
+  | [], xs => by simp [celems, matchElems]
+  | p :: ps, [] => by simp [celems, matchElems]
+  | p :: ps, x :: xs => by
+    have h₁ := cmatch_verdict ρ p x
+    have h₂ := celems_verdict ρ ps xs
+    simp only [celems, matchElems]
+    cases hp : matchP ρ p x <;> cases hq : matchElems ρ ps xs <;> simp_all
+
+theorem ckeys_verdict (ρ : Env) : ∀ (ks : List Scalar) (ps : List Pat) (kvs : List (Scalar × V)),
+    (ckeys ρ ks ps kvs).1 = (matchKeys ρ ks ps kvs).isSome
+  | [], [], kvs => by simp [ckeys, matchKeys]
+  | [], _ :: _, kvs => by simp [ckeys, matchKeys]
+  | _ :: _, [], kvs => by simp [ckeys, matchKeys]
+  | k :: ks, p :: ps, kvs => by
+    have h₁ := cmatch_verdict ρ p (lookupKey kvs k)
+    have h₂ := ckeys_verdict ρ ks ps kvs
+    simp only [ckeys, matchKeys]
+    cases hp : matchP ρ p (lookupKey kvs k) <;> cases hq : matchKeys ρ ks ps kvs <;> simp_all
+end
+
+theorem cselectFrom_index (ρ : Env) (v : V) : ∀ (cs : List Pat) (k : Nat),
+    (cselectFrom ρ v k cs).map (·.1) = (selectFrom ρ v k cs).map (·.1)
+  | [], k => rfl
+  | c :: cs, k => by
+    have h := cmatch_verdict ρ c v
+    simp only [cselectFrom, selectFrom]
+    cases hc : matchP ρ c v
+    · simp_all [cselectFrom_index ρ v cs (k + 1)]
+    · simp_all
+
+
+/-! ## the stores of the compiled matcher are the reference bindings (patterns without `||` / `?`) -/
+
+/-- two store sequences leave every variable with the same content -/
+def Ext (w b : Bindings) : Prop := ∀ x, Bindings.get w x = Bindings.get b x
+
+theorem get_append (a b : Bindings) (x : String) :
+    Bindings.get (a ++ b) x = (Bindings.get b x).or (Bindings.get a x) := by
+  simp only [Bindings.get, List.reverse_append, List.find?_append]
+  cases h : List.find? (fun p => p.1 == x) b.reverse <;> simp
+
+theorem ext_refl (w : Bindings) : Ext w w := fun _ => rfl
+
+theorem ext_append {w₁ b₁ w₂ b₂ : Bindings} (h₁ : Ext w₁ b₁) (h₂ : Ext w₂ b₂) : Ext (w₁ ++ w₂) (b₁ ++ b₂) := by
+  intro x
+  rw [get_append, get_append, h₁ x, h₂ x]
+
+theorem get_single (x y : String) (v : V) :
+    Bindings.get [(x, v)] y = if x == y then some v else none := by
+  simp only [Bindings.get, List.reverse_cons, List.reverse_nil, List.nil_append, List.find?_cons]
+  cases h : (x == y) <;> simp
+
+theorem ext_init {r : Rest} {X Y : Bindings} (h : Ext X Y)
+    (hr : ∀ x, r = .named x → (Bindings.get X x).isSome = true) : Ext (r.init ++ X) Y := by
+  intro y
+  rw [get_append, ← h y]
+  cases hx : Bindings.get X y with
+  | some w => rfl
+  | none =>
+    cases r with
+    | none => simp [Rest.init, Bindings.get]
+    | anon => simp [Rest.init, Bindings.get]
+    | named x =>
+      simp only [Rest.init, Option.none_or, get_single]
+      by_cases e : (x == y) = true
+      · have := hr x rfl
+        have e' : x = y := by simpa using e
+        subst e'
+        rw [hx] at this; cases this
+      · simp [e]
+
+theorem seq_ext {r : Rest} {npre npost : Nat} {xs : List V} {cpre cpost : Bool × Writes}
+    {mpre mpost : Option Bindings} {b : Bindings}
+    (hs : seqCombine r npre npost xs mpre mpost = some b)
+    (h₁ : cpre.1 = mpre.isSome) (e₁ : ∀ b₁, mpre = some b₁ → Ext cpre.2 b₁)
+    (e₂ : ∀ b₂, mpost = some b₂ → Ext cpost.2 b₂) :
+    Ext (r.init ++ (cseqCombine r npre npost xs cpre cpost).2) b := by
+  obtain ⟨hl, b₁, b₂, hp, hq, rfl⟩ := seqCombine_some hs
+  have hc : cpre.1 = true := by rw [h₁, hp]; rfl
+  simp only [cseqCombine, hl, hc, if_true]
+  apply ext_init
+  · exact ext_append (ext_append (e₁ b₁ hp) (ext_refl _)) (e₂ b₂ hq)
+  · intro x hx
+    subst hx
+    simp only [Rest.vars, List.map_cons, List.map_nil]
+    rw [get_append, get_append, get_single]
+    cases Bindings.get cpost.2 x <;> simp
+
+mutual
+theorem cmatch_ext (ρ : Env) : ∀ (p : Pat) (v : V) (b : Bindings), p.altFree = true →
+    matchP ρ p v = some b → Ext (cmatch ρ p v).2 b
+  | .lit s, v, b, _, h => by
+    cases v <;> simp [matchP] at h
+    obtain ⟨_, rfl⟩ := h
+    simp only [cmatch]; exact ext_refl _
+  | .interp pre x, v, b, _, h => by
+    simp only [matchP] at h
+    split at h <;> simp at h
+    obtain ⟨_, rfl⟩ := h
+    simp only [cmatch]; exact ext_refl _
+  | .range op lo hi, v, b, _, h => by
+    simp only [matchP] at h
+    split at h <;> simp at h
+    subst h; simp only [cmatch]; exact ext_refl _
+  | .list pre r post, v, b, ha, h => by
+    simp only [Pat.altFree, Bool.and_eq_true] at ha
+    cases v <;> simp only [matchP] at h <;> try (cases h)
+    simp only [cmatch]
+    exact seq_ext h (celems_verdict ρ pre _) (fun b₁ hb => celems_ext ρ pre _ b₁ ha.1 hb)
+      (fun b₂ hb => celems_ext ρ post _ b₂ ha.2 hb)
+  | .tup pre r post, v, b, ha, h => by
+    simp only [Pat.altFree, Bool.and_eq_true] at ha
+    cases v <;> simp only [matchP] at h <;> try (cases h)
+    all_goals
+      simp only [cmatch]
+      exact seq_ext h (celems_verdict ρ pre _) (fun b₁ hb => celems_ext ρ pre _ b₁ ha.1 hb)
+        (fun b₂ hb => celems_ext ρ post _ b₂ ha.2 hb)
+  | .map ks ps, v, b, ha, h => by
+    simp only [Pat.altFree] at ha
+    cases v <;> simp only [matchP] at h <;> try (cases h)
+    simp only [cmatch]
+    exact ckeys_ext ρ ks ps _ b ha h
+  | .recd ks ps, v, b, ha, h => by
+    simp only [Pat.altFree] at ha
+    cases v <;> simp only [matchP] at h <;> try (cases h)
+    all_goals
+      simp only [cmatch]
+      exact ckeys_ext ρ ks ps _ b ha h
+  | .obj c none, v, b, _, h => by
+    simp only [matchP] at h
+    split at h <;> simp at h
+    subst h; simp only [cmatch]; exact ext_refl _
+  | .obj c (some p), v, b, ha, h => by
+    simp only [Pat.altFree] at ha
+    simp only [matchP] at h
+    split at h
+    · rename_i hc
+      split at h
+      · rename_i n hn
+        simp only [cmatch, hc, hn, if_true]
+        exact cmatch_ext ρ p _ b ha h
+      · cases h
+    · cases h
+  | .bind x, v, b, _, h => by
+    simp [matchP] at h; subst h
+    simp only [cmatch]; exact ext_refl _
+  | .as p x, v, b, ha, h => by
+    simp only [Pat.altFree] at ha
+    simp only [matchP] at h
+    cases hp : matchP ρ p v with
+    | none => simp [hp] at h
+    | some b' =>
+      simp [hp] at h; subst h
+      simp only [cmatch]
+      exact ext_append (w₁ := [(x, v)]) (b₁ := [(x, v)]) (ext_refl _) (cmatch_ext ρ p v b' ha hp)
+  | .or p q, v, b, ha, h => by simp [Pat.altFree] at ha
+  | .and p q, v, b, ha, h => by
+    simp only [Pat.altFree, Bool.and_eq_true] at ha
+    simp only [matchP] at h
+    cases hp : matchP ρ p v with
+    | none => simp [hp] at h
+    | some b₁ =>
+      simp only [hp] at h
+      cases hq : matchP ρ q v with
+      | none => simp [hq] at h
+      | some b₂ =>
+        simp [hq] at h; subst h
+        have hc : (cmatch ρ p v).1 = true := by rw [cmatch_verdict, hp]; rfl
+        simp only [cmatch, hc, if_true]
+        exact ext_append (cmatch_ext ρ p v b₁ ha.1 hp) (cmatch_ext ρ q v b₂ ha.2 hq)
+  | .opt p, v, b, ha, h => by simp [Pat.altFree] at ha
+  | .must, v, b, _, h => by
+    simp only [matchP] at h
+    split at h <;> simp at h
+    subst h; simp only [cmatch]; exact ext_refl _
+  | .rel op o, v, b, _, h => by
+    simp only [matchP] at h
+    split at h
+    · split at h <;> simp at h
+      subst h; simp only [cmatch]; exact ext_refl _
+    · cases h
+
+theorem celems_ext (ρ : Env) : ∀ (ps : List Pat) (xs : List V) (b : Bindings), altFreeL ps = true →
+    matchElems ρ ps xs = some b → Ext (celems ρ ps xs).2 b
+  | [], xs, b, _, h => by simp [matchElems] at h; subst h; simp only [celems]; exact ext_refl _
+  | p :: ps, [], b, _, h => by simp [matchElems] at h
+  | p :: ps, x :: xs, b, ha, h => by
+    simp only [altFreeL, Bool.and_eq_true] at ha
+    simp only [matchElems] at h
+    cases hp : matchP ρ p x with
+    | none => simp [hp] at h
+    | some b₁ =>
+      simp only [hp] at h
+      cases hq : matchElems ρ ps xs with
+      | none => simp [hq] at h
+      | some b₂ =>
+        simp [hq] at h; subst h
+        have hc : (cmatch ρ p x).1 = true := by rw [cmatch_verdict, hp]; rfl
+        simp only [celems, hc, if_true]
+        exact ext_append (cmatch_ext ρ p x b₁ ha.1 hp) (celems_ext ρ ps xs b₂ ha.2 hq)
+
+theorem ckeys_ext (ρ : Env) : ∀ (ks : List Scalar) (ps : List Pat) (kvs : List (Scalar × V)) (b : Bindings),
+    altFreeL ps = true → matchKeys ρ ks ps kvs = some b → Ext (ckeys ρ ks ps kvs).2 b
+  | [], [], kvs, b, _, h => by simp [matchKeys] at h; subst h; simp only [ckeys]; exact ext_refl _
+  | [], _ :: _, kvs, b, _, h => by simp [matchKeys] at h
+  | _ :: _, [], kvs, b, _, h => by simp [matchKeys] at h
+  | k :: ks, p :: ps, kvs, b, ha, h => by
+    simp only [altFreeL, Bool.and_eq_true] at ha
+    simp only [matchKeys] at h
+    cases hp : matchP ρ p (lookupKey kvs k) with
+    | none => simp [hp] at h
+    | some b₁ =>
+      simp only [hp] at h
+      cases hq : matchKeys ρ ks ps kvs with
+      | none => simp [hq] at h
+      | some b₂ =>
+        simp [hq] at h; subst h
+        have hc : (cmatch ρ p (lookupKey kvs k)).1 = true := by rw [cmatch_verdict, hp]; rfl
+        simp only [ckeys, hc, if_true]
+        exact ext_append (cmatch_ext ρ p _ b₁ ha.1 hp) (ckeys_ext ρ ks ps kvs b₂ ha.2 hq)
+end
 
 end Elk.Pattern
